@@ -404,6 +404,8 @@ class LaplaceBoundedDomain(LaplaceTruncated):
         value = max(min(value, self.upper), self.lower)
         if np.isnan(value):
             return float("nan")
+        if self.lower == self.upper:
+            return value  # single-point domain: rejection sampling would never accept
 
         samples = 1
 
